@@ -71,7 +71,16 @@ async def run(
         processes.append(process)
 
     # Wait for all processes to be done
-    await asyncio.gather(*processes)
+    try:
+        await asyncio.gather(*processes)
+    except Exception:
+        # One simulator's process failed. Stop the processes of the
+        # other simulators as well instead of leaving their tasks
+        # pending on the event loop.
+        for process in processes:
+            process.cancel()
+        await asyncio.gather(*processes, return_exceptions=True)
+        raise
 
 
 async def sim_process(
@@ -154,16 +163,25 @@ async def next_step_settled(sim: SimRunner, world: World) -> bool:
             # event with a future output time); never wait beyond
             # until, as progress stops there.
             await_time = min(sim.next_steps[0], until_time) if sim.next_steps else until_time
-            _, pending = await asyncio.wait(
-                [
-                    asyncio.create_task(sim.progress.has_reached(await_time)),
-                    asyncio.create_task(sim.newer_step.wait()),
-                ],
-                return_when="FIRST_COMPLETED",
-                timeout=world.rt_factor,
-            )
+            tasks = [
+                asyncio.create_task(sim.progress.has_reached(await_time)),
+                asyncio.create_task(sim.newer_step.wait()),
+            ]
+            try:
+                await asyncio.wait(
+                    tasks,
+                    return_when="FIRST_COMPLETED",
+                    timeout=world.rt_factor,
+                )
+            except asyncio.CancelledError:
+                # This simulator's process is being cancelled (because
+                # another simulator failed); don't leave the helper
+                # tasks behind.
+                for task in tasks:
+                    task.cancel()
+                raise
             sim.newer_step.clear()
-            for task in pending:
+            for task in tasks:
                 task.cancel()
             if world.rt_factor:
                 advance_progress(sim, world)
